@@ -722,7 +722,7 @@ func (vc *VC) pure(in ssa.Instruction, get getter, st *State, guard Term, emit b
 		if _, isSlice := x.Type().Underlying().(*types.Slice); isSlice {
 			return Val{}, false
 		}
-		return vc.convert(x, get, st), true
+		return vc.convert(x, get, st, guard, emit), true
 	case *ssa.MakeInterface:
 		v := get(x.X)
 		if isInterface(x.X.Type()) {
@@ -955,10 +955,13 @@ func (vc *VC) intOp(x *ssa.BinOp, a, b Term, guard Term, emit bool) Val {
 	bits, signed, _ := intInfo(t)
 	switch x.Op {
 	case token.ADD:
+		vc.overflowCheck(rt, app("+", a, b), guard, emit, x.Pos())
 		return Val{t: wrapInt(rt, app("+", a, b), true), typ: rt}
 	case token.SUB:
+		vc.overflowCheck(rt, app("-", a, b), guard, emit, x.Pos())
 		return Val{t: wrapInt(rt, app("-", a, b), true), typ: rt}
 	case token.MUL:
+		vc.overflowCheck(rt, app("*", a, b), guard, emit, x.Pos())
 		return Val{t: wrapInt(rt, app("*", a, b), false), typ: rt}
 	case token.QUO, token.REM:
 		if emit {
@@ -968,6 +971,7 @@ func (vc *VC) intOp(x *ssa.BinOp, a, b Term, guard Term, emit bool) Val {
 		q := vc.truncDiv(a, b)
 		if x.Op == token.QUO {
 			if signed {
+				vc.overflowCheck(rt, q, guard, emit, x.Pos())
 				return Val{t: wrapInt(rt, q, true), typ: rt} // MinInt / -1 wraps
 			}
 			return Val{t: q, typ: rt}
@@ -1066,6 +1070,7 @@ func (vc *VC) unop(x *ssa.UnOp, get getter, st *State, guard Term, emit bool) Va
 			f := vc.declareFun("f64.neg", []string{"F64"}, "F64")
 			return Val{t: app(f, a), typ: rt}
 		}
+		vc.overflowCheck(rt, app("-", a), guard, emit, x.Pos())
 		return Val{t: wrapInt(rt, app("-", a), true), typ: rt}
 	case token.XOR:
 		a := get(x.X).t
@@ -1259,7 +1264,7 @@ func (vc *VC) makeSlice(x *ssa.MakeSlice, st *State, reach Term) {
 	vc.vals[x] = vc.nameVal(x.Name(), v)
 }
 
-func (vc *VC) convert(x *ssa.Convert, get getter, st *State) Val {
+func (vc *VC) convert(x *ssa.Convert, get getter, st *State, guard Term, emit bool) Val {
 	from, to := x.X.Type(), x.Type()
 	a := get(x.X)
 	_, _, fi := intInfo(from)
@@ -1271,6 +1276,7 @@ func (vc *VC) convert(x *ssa.Convert, get getter, st *State) Val {
 		if flo.Cmp(tlo) >= 0 && fhi.Cmp(thi) <= 0 {
 			return Val{t: a.t, typ: to}
 		}
+		vc.overflowCheck(to, a.t, guard, emit, x.Pos())
 		return Val{t: wrapInt(to, a.t, false), typ: to}
 	case fi && isFloat(to):
 		f := vc.declareFun("f64.fromint", []string{"Int"}, "F64")
